@@ -12,7 +12,10 @@ require (
 
 require (
 	github.com/cnotch/loader v0.0.0-20200405015128-d9d964d09439 // indirect
+	github.com/emitter-io/address v1.0.0 // indirect
+	github.com/gorilla/websocket v1.4.2 // indirect
 	github.com/kelindar/process v0.0.0-20170730150328-69a29e249ec3 // indirect
+	github.com/kelindar/tcp v1.0.0 // indirect
 	github.com/pion/randutil v0.1.0 // indirect
 	github.com/pion/rtp v1.6.2 // indirect
 	github.com/pixelbender/go-sdp v1.1.0 // indirect
